@@ -12,7 +12,7 @@ open GV.Src.GeoJson (Kw PolygonS BoxS CurvedS RingS LineS PointS PolyM MPolyS ML
   ringLinearRings mpolyLinearRings boxBounds pointBounds pointCentroid polygonToGeoInterface boxToGeoInterface
   curvedToGeoInterface ringToGeoInterface lineGeoInterface lineToGeoInterface pointGeoInterface pointToGeoInterface
   mlineGeoInterface mlineToGeoInterface mpointGeoInterface mpointToGeoInterface mpolyToGeoInterface startDt endDt
-  propertiesJson getDtFromGeojsonProps pointFromGeoJson jIter)
+  propertiesJson getDtFromGeojsonProps pointFromGeoJson lineFromGeoJson mpointFromGeoJson mlineFromGeoJson jIter)
 
 variable (rt : Rt)
 
@@ -425,6 +425,170 @@ theorem pointFromGeoJson_eq (d : Obj) (ks ke : String) :
         | ok pos =>
           simp [ht, hp, hco, hpos, bind, Except.bind, pure, Except.pure]
           props_tail d, ks, ke, rt
+
+/-! ### importers that iterate over `coordinates`
+
+Iterating a JSON value that is not a list (a string gives characters, a dict keys) is outside what the model's readers
+describe exactly (`listOfJ`, `ringOfJ` answer `ValueError` for every string / dict, Python does so only when the position
+reader then fails): the equalities are stated for documents whose `coordinates` member, where present, is a list (of
+lists …) down to the positions — any GeoJSON document, well typed or not below that. -/
+
+/-- the geometry dict the importers read: the document itself if it has `coordinates`, else its `geometry` member -/
+def geomOf (d : Obj) : Obj :=
+  if ohas d "coordinates" then d else match oget d "geometry" with | some (.obj g) => g | _ => []
+
+def isArr : J → Bool
+  | .arr _ => true
+  | _ => false
+
+/-- absent, or a list -/
+def arr1 (j : Option J) : Bool :=
+  match j with
+  | none => true
+  | some c => isArr c
+
+/-- absent, or a list of lists -/
+def arr2 (j : Option J) : Bool :=
+  match j with
+  | none => true
+  | some (.arr xs) => xs.all isArr
+  | some _ => false
+
+theorem pyMapE_eq_of {α β : Type} (f g : α → Except String β) (h : ∀ x, f x = g x) (l : List α) :
+    Py.mapE f l = GeoJson.mapE g l := by
+  induction l with
+  | nil => rfl
+  | cons x xs ih =>
+    simp only [Py.mapE, GeoJson.mapE, h x, ih]
+    cases g x with
+    | error e => rfl
+    | ok y => cases GeoJson.mapE g xs <;> rfl
+
+set_option hygiene false in
+/-- a one-level `coordinates` list read by `[Coordinate(…) for x in geom.get('coordinates', [])]` -/
+local macro "coords1" g:term "," d:term "," ks:term "," ke:term "," rt:term : tactic =>
+  `(tactic| (
+    cases hco : oget $g "coordinates" with
+    | none =>
+      simp [ht, hp, hco, jIter, Py.mapE, listOfJ, bind, Except.bind, pure, Except.pure]
+      props_tail $d, $ks, $ke, $rt
+    | some c =>
+      cases c <;> simp [hco, arr1, isArr] at harr'
+      rename_i xs
+      simp only [jIter, Option.getD_some]
+      rw [pyMapE_eq_of _ posOfJ (fun x => by cases posOfJ x <;> rfl)]
+      cases hm : GeoJson.mapE posOfJ xs with
+      | error e => simp [ht, hp, hco, hm, listOfJ, Except.map, bind, Except.bind]
+      | ok vs =>
+        simp [ht, hp, hco, hm, listOfJ, bind, Except.bind, pure, Except.pure]
+        props_tail $d, $ks, $ke, $rt))
+
+/-- **`GeoLineString.from_geojson`** -/
+theorem lineFromGeoJson_eq (d : Obj) (ks ke : String) (harr : arr1 (oget (geomOf d) "coordinates") = true) :
+    lineFromGeoJson rt d ks ke = (fromGeoJson rt .line (.obj d) ks ke).map (·.1) := by
+  simp only [lineFromGeoJson, getDt_eq, fromGeoJson, selectGeom, Kind.name, checkType, geomEarly, geomLate, propsAndDt]
+  cases hc : ohas d "coordinates" <;> simp only [Bool.false_eq_true, if_false, if_true]
+  · cases hg : oget d "geometry" with
+    | none => simp [oget, Except.map]
+    | some g =>
+      cases g with
+      | obj g =>
+        simp only [Option.getD_some]
+        have harr' : arr1 (oget g "coordinates") = true := by simpa [geomOf, hc, hg] using harr
+        type_gate g, "LineString" => coords1 g, d, ks, ke, rt
+      | _ => simp [Except.map]
+  · have harr' : arr1 (oget d "coordinates") = true := by simpa [geomOf, hc] using harr
+    type_gate d, "LineString" => coords1 d, d, ks, ke, rt
+
+theorem pyMapE_map {α β γ : Type} (f : α → Except String γ) (g : α → Except String β) (w : β → γ) (l : List α)
+    (h : ∀ x ∈ l, f x = (g x).map w) : Py.mapE f l = (GeoJson.mapE g l).map (List.map w) := by
+  induction l with
+  | nil => rfl
+  | cons x xs ih =>
+    have hx := h x (by simp)
+    have ih' := ih (fun y hy => h y (by simp [hy]))
+    simp only [Py.mapE, GeoJson.mapE, hx, ih']
+    cases g x with
+    | error e => rfl
+    | ok y => cases GeoJson.mapE g xs <;> rfl
+
+set_option hygiene false in
+/-- `[GeoPoint(Coordinate(…)) for coord in geom.get('coordinates', [])]` -/
+local macro "coords_mpoint" g:term "," d:term "," ks:term "," ke:term "," rt:term : tactic =>
+  `(tactic| (
+    cases hco : oget $g "coordinates" with
+    | none =>
+      simp [ht, hp, hco, jIter, Py.mapE, listOfJ, bind, Except.bind, pure, Except.pure]
+      props_tail $d, $ks, $ke, $rt
+    | some c =>
+      cases c <;> simp [hco, arr1, isArr] at harr'
+      rename_i xs
+      simp only [jIter, Option.getD_some]
+      rw [pyMapE_map _ posOfJ PointS.mk xs (fun x _ => by cases posOfJ x <;> rfl)]
+      cases hm : GeoJson.mapE posOfJ xs with
+      | error e => simp [ht, hp, hco, hm, listOfJ, Except.map, bind, Except.bind]
+      | ok vs =>
+        simp [ht, hp, hco, hm, listOfJ, Except.map, bind, Except.bind, pure, Except.pure, List.map_map, Function.comp_def]
+        props_tail $d, $ks, $ke, $rt))
+
+/-- **`MultiGeoPoint.from_geojson`** -/
+theorem mpointFromGeoJson_eq (d : Obj) (ks ke : String) (harr : arr1 (oget (geomOf d) "coordinates") = true) :
+    mpointFromGeoJson rt d ks ke = (fromGeoJson rt .mpoint (.obj d) ks ke).map (·.1) := by
+  simp only [mpointFromGeoJson, getDt_eq, fromGeoJson, selectGeom, Kind.name, checkType, geomEarly, geomLate, propsAndDt]
+  cases hc : ohas d "coordinates" <;> simp only [Bool.false_eq_true, if_false, if_true]
+  · cases hg : oget d "geometry" with
+    | none => simp [oget, Except.map]
+    | some g =>
+      cases g with
+      | obj g =>
+        simp only [Option.getD_some]
+        have harr' : arr1 (oget g "coordinates") = true := by simpa [geomOf, hc, hg] using harr
+        type_gate g, "MultiPoint" => coords_mpoint g, d, ks, ke, rt
+      | _ => simp [Except.map]
+  · have harr' : arr1 (oget d "coordinates") = true := by simpa [geomOf, hc] using harr
+    type_gate d, "MultiPoint" => coords_mpoint d, d, ks, ke, rt
+
+set_option hygiene false in
+/-- `[GeoLineString([Coordinate(…) for x in line]) for line in geom.get('coordinates', [])]` -/
+local macro "coords_mline" g:term "," d:term "," ks:term "," ke:term "," rt:term : tactic =>
+  `(tactic| (
+    cases hco : oget $g "coordinates" with
+    | none =>
+      simp [ht, hp, hco, jIter, Py.mapE, listOfJ, bind, Except.bind, pure, Except.pure]
+      props_tail $d, $ks, $ke, $rt
+    | some c =>
+      cases c <;> simp [hco, arr2] at harr'
+      rename_i xs
+      simp only [jIter, Option.getD_some]
+      rw [pyMapE_map _ ringOfJ LineS.mk xs (fun x hx => by
+        have := harr' x hx
+        cases x <;> simp [isArr] at this
+        simp only [jIter, ringOfJ]
+        rw [pyMapE_eq_of _ posOfJ (fun x => by cases posOfJ x <;> rfl)]
+        rename_i ps
+        cases GeoJson.mapE posOfJ ps <;> rfl)]
+      cases hm : GeoJson.mapE ringOfJ xs with
+      | error e => simp [ht, hp, hco, hm, listOfJ, Except.map, bind, Except.bind]
+      | ok vs =>
+        simp [ht, hp, hco, hm, listOfJ, Except.map, bind, Except.bind, pure, Except.pure, List.map_map, Function.comp_def]
+        props_tail $d, $ks, $ke, $rt))
+
+/-- **`MultiGeoLineString.from_geojson`** -/
+theorem mlineFromGeoJson_eq (d : Obj) (ks ke : String) (harr : arr2 (oget (geomOf d) "coordinates") = true) :
+    mlineFromGeoJson rt d ks ke = (fromGeoJson rt .mline (.obj d) ks ke).map (·.1) := by
+  simp only [mlineFromGeoJson, getDt_eq, fromGeoJson, selectGeom, Kind.name, checkType, geomEarly, geomLate, propsAndDt]
+  cases hc : ohas d "coordinates" <;> simp only [Bool.false_eq_true, if_false, if_true]
+  · cases hg : oget d "geometry" with
+    | none => simp [oget, Except.map]
+    | some g =>
+      cases g with
+      | obj g =>
+        simp only [Option.getD_some]
+        have harr' : arr2 (oget g "coordinates") = true := by simpa [geomOf, hc, hg] using harr
+        type_gate g, "MultiLineString" => coords_mline g, d, ks, ke, rt
+      | _ => simp [Except.map]
+  · have harr' : arr2 (oget d "coordinates") = true := by simpa [geomOf, hc] using harr
+    type_gate d, "MultiLineString" => coords_mline d, d, ks, ke, rt
 
 /-! ## the export chain as the source dispatches it
 
